@@ -2,11 +2,8 @@
 // sharded Coq files holding (input, observed output) pairs, a JSONL mirror for replays, and statistics.
 // usage: sds-harness <property> <tier> <seed> <outdir> <variant>
 mod common;
-mod bvgen;
-mod c01;
+mod c16;
 mod c17;
-mod c18;
-mod c20;
 
 use common::*;
 
@@ -27,10 +24,8 @@ fn main() {
     out.stat_n(if cfg!(debug_assertions) { "build.debug" } else { "build.release" }, 1);
     out.stat_n(if cfg!(target_feature = "bmi2") { "build.bmi2" } else { "build.portable" }, 1);
     match prop {
-        "C01" => c01::run(&mut rng, &mut out, thorough, variant),
+        "C16" => c16::run(&mut rng, &mut out, thorough, variant),
         "C17" => c17::run(&mut rng, &mut out, thorough, variant),
-        "C18" => c18::run(&mut rng, &mut out, thorough, variant),
-        "C20" => c20::run(&mut rng, &mut out, thorough, variant),
         _ => {
             eprintln!("unknown property {}", prop);
             std::process::exit(2);
